@@ -5,6 +5,7 @@ package main
 
 import (
 	"bytes"
+	"com.tuntun.rangers/node/src/eth_rpc"
 	"runtime/debug"
 	"com.tuntun.rangers/node/src/executor"
 	"com.tuntun.rangers/node/src/vm"
@@ -1367,6 +1368,159 @@ func admissionPhase(r *hx.Rng, n int) {
 	res.Note(fmt.Sprintf("admission phase: %d bases through %v (mutants first, honest base last): %d admitted, %d refused, %d offers skipped because the hash was already pooled", n, entryPoints, admitted, refused, masked))
 }
 
+// ---------- size boundaries ----------
+// The acceptance path has ONE size limit: eth_rpc.validateTx refuses call data / init code longer than
+// eth_rpc.MaxInitCodeSize (the constant is imported from the source; validateTx itself needs a block chain and
+// is mirrored here by its two size-dependent tests: the length test and executor.IntrinsicGas).
+// TxPool.VerifyTransaction, GameExecutor.runWrite / write and the peer push handler have no size guard, and the
+// Coq model has none (C07_native_complete / C07_eth_complete hold for every length).  Oracle:
+//   honest => VerifyTransaction accepts, at every swept size;
+//   whatever the RPC layer admits (and then broadcasts) must be accepted and pooled by every other entry point.
+// A size test appearing inside the verification functions is reported as model drift (go/ast).
+func sizeGuardTie() {
+	for _, fn := range []string{"VerifyTransaction", "verifyETHTx", "verifyTxChainId", "verifyTransactionHash", "verifyTransactionSign", "compareTx"} {
+		b := funcBody("src/service/transaction_pool.go", fn)
+		if b == nil {
+			res.Violate("C07/model-tie:verify-function-missing", "function "+fn+" not found in src/service/transaction_pool.go", fn)
+			continue
+		}
+		found := ""
+		ast.Inspect(b, func(x ast.Node) bool {
+			if c, ok := x.(*ast.CallExpr); ok {
+				if id, ok := c.Fun.(*ast.Ident); ok && (id.Name == "len" || strings.Contains(strings.ToLower(id.Name), "size")) {
+					found = id.Name
+				}
+			}
+			return true
+		})
+		if found != "" {
+			res.Violate("C07/model-tie:verify-size-guard", "a length / size test ("+found+") appears in "+fn+": the Coq model of VerifyTransaction has no size guard (the model no longer describes the code)", fn)
+		}
+	}
+	res.Note(fmt.Sprintf("static tie: no length test in VerifyTransaction/verifyETHTx/verifyTx*/compareTx (go/ast); eth_rpc.MaxInitCodeSize = %d", eth_rpc.MaxInitCodeSize))
+}
+
+func sizeFamily(r *hx.Rng, thorough bool, eval func(class, key string, tx *types.Transaction, honest bool)) {
+	setHeight(100)
+	state, err := middleware.AccountDBManagerInstance.GetAccountDBByHash(common.Hash{})
+	if err == nil {
+		middleware.AccountDBManagerInstance.SetLatestStateDB(state, make(map[string]uint64), 100)
+	}
+	lim := eth_rpc.MaxInitCodeSize
+	sizes := []int{1, 1024, 32*1024 - 1, 32 * 1024, 33000, lim - 1, lim, lim + 1, 64 * 1024, 128 * 1024}
+	if thorough {
+		sizes = append(sizes, 2*lim, 2*lim+1, 256*1024, 96*1024, 24576, 24577)
+	}
+	admit := func(kind string, n int, fresh func() *types.Transaction, rpcOK bool) {
+		for _, ep := range entryPoints {
+			tx := fresh() // a distinct honest transaction of this size for every entry point
+			env := envelope{}
+			if ep == "runWrite" && r.Bool() {
+				env = envelope{UserId: "u", Nonce: 3, GateNonce: 4}
+			}
+			before := pool.IsExisted(tx.Hash)
+			ok, pmsg := offer(ep, env, tx)
+			in := map[string]interface{}{"entry_point": ep, "envelope": env, "kind": kind, "payload_bytes": n, "hash": tx.Hash.Hex(), "source": tx.Source, "extra_data_len": len(tx.ExtraData), "data_len": len(tx.Data)}
+			if pmsg != "" {
+				res.Violate("C07/admission:"+ep+":panic", "entry point panicked on a "+strconv.Itoa(n)+"-byte honest "+kind+" transaction: "+pmsg[:200], in)
+				continue
+			}
+			if !ok {
+				continue
+			}
+			after := pool.IsExisted(tx.Hash)
+			res.Count(fmt.Sprintf("size-admission-%s/%v", ep, after), "", false)
+			if !before && !after && rpcOK {
+				res.Violate(fmt.Sprintf("C07/admission:%s:rpc-admissible-rejected:%s-%d", ep, kind, n), fmt.Sprintf("honest %s transaction with %d payload bytes, which eth_rpc admits (limit %d), is not in the pool after %s", kind, n, lim, ep), in)
+			}
+		}
+	}
+	_, key, _ := genKey(r)
+	nonce := uint64(0)
+	for _, n := range sizes {
+		for _, create := range []bool{false, true} {
+			kind := "eth-call"
+			var to *common.Address
+			if create {
+				kind = "eth-create"
+			} else {
+				a := common.BytesToAddress(r.Bytes(20))
+				to = &a
+			}
+			data := r.Bytes(n)
+			gas, gerr := executor.IntrinsicGas(data, create)
+			rpcOK := n <= lim && gerr == nil
+			nonce++
+			raw := rawTx{Nonce: nonce, Price: big.NewInt(1000000000), Gas: gas + 21000, To: to, Value: big.NewInt(0), Data: data, V: new(big.Int), R: new(big.Int), S: new(big.Int)}
+			eb := signEth(nil, raw, key, chainBig)
+			code, _ := runVerify(eb.wrap)
+			res.Count(fmt.Sprintf("size-%s/verdict%d", kind, code), kind+strconv.Itoa(n), true)
+			in := map[string]interface{}{"kind": kind, "payload_bytes": n, "rpc_admits": rpcOK, "hash": eb.wrap.Hash.Hex(), "source": eb.wrap.Source, "extra_data_len": len(eb.wrap.ExtraData), "data_len": len(eb.wrap.Data), "nonce": nonce}
+			if code != 0 {
+				res.Violate(fmt.Sprintf("C07/complete:size:honest-%s-rejected:%d", kind, n), fmt.Sprintf("honestly signed EIP-155 %s transaction with %d payload bytes refused by VerifyTransaction (verdict %d); eth_rpc admits it: %v", kind, n, code, rpcOK), in)
+			}
+			if bad := ethConjuncts(eb.wrap); bad != "" {
+				res.Violate("C07/harness:size-family-not-honest", "generator produced a transaction failing "+bad, in)
+			}
+			// a mutant of the same size must still be refused
+			m := clone(eb.wrap)
+			m.Source = "0x" + hex.EncodeToString(r.Bytes(20))
+			eval("size:"+kind+"-other-source", "C07/eth-mutation:Source", m, false)
+			e2 := append([]byte{}, eb.enc...)
+			e2[len(e2)/2] ^= 0x10
+			if w := wrapBytes(e2, eb.sender); w != nil {
+				eval("size:"+kind+"-payload-bitflip", "C07/eth-forgery:payload-bitflip", w, false)
+			}
+			admit(kind, n, func() *types.Transaction {
+				nonce++
+				r2 := raw
+				r2.Nonce = nonce
+				return signEth(nil, r2, key, chainBig).wrap
+			}, rpcOK)
+		}
+		// native: long Data, long ExtraData (no limit anywhere on this path)
+		for _, kind := range []string{"native-data", "native-extra"} {
+			b, sk := genNative(r)
+			long := make([]byte, n)
+			for i := range long {
+				long[i] = printable[r.Intn(len(printable))]
+			}
+			if kind == "native-data" {
+				b.Data = string(long)
+			} else {
+				b.ExtraData = string(long)
+			}
+			signNative(b, sk)
+			code, _ := runVerify(b)
+			res.Count(fmt.Sprintf("size-%s/verdict%d", kind, code), kind+strconv.Itoa(n), true)
+			if code != 0 {
+				res.Violate(fmt.Sprintf("C07/complete:size:honest-%s-rejected:%d", kind, n), fmt.Sprintf("honestly signed native transaction with a %d-byte field refused by VerifyTransaction (verdict %d)", n, code),
+					map[string]interface{}{"kind": kind, "field_bytes": n, "hash": b.Hash.Hex(), "source": b.Source, "type": b.Type, "nonce": b.Nonce})
+			}
+			m := clone(b)
+			mb := []byte(long)
+			mb[n/2] ^= 1
+			if kind == "native-data" {
+				m.Data = string(mb)
+			} else {
+				m.ExtraData = string(mb)
+			}
+			eval("size:"+kind+"-bitflip", "C07/native-mutation:"+map[string]string{"native-data": "Data", "native-extra": "ExtraData"}[kind], m, false)
+			admit(kind, n, func() *types.Transaction {
+				f, sk2 := genNative(r)
+				if kind == "native-data" {
+					f.Data = string(long)
+				} else {
+					f.ExtraData = string(long)
+				}
+				signNative(f, sk2)
+				return f
+			}, true)
+		}
+	}
+	res.Note(fmt.Sprintf("size family: payload / field sizes %v, honest EIP-155 calls and creations and native Data / ExtraData, through VerifyTransaction and %v", sizes, entryPoints))
+}
+
 // ---------- completeness stream: many distinct honest signatures ----------
 // Honest transactions must be accepted whatever their signature values look like.  A few keys sign
 // thousands of distinct transactions (implementation only); signatures whose r or s has leading zero
@@ -1772,6 +1926,8 @@ func main() {
 	res.Note(fmt.Sprintf("two-field boundary shifts (same preimage, same hash and signature, different declared fields; outside the property's single-field quantifier): %d of %d accepted", shiftAccepted, shiftTotal))
 	res.Note("chain id " + chainStr + " at height " + strconv.FormatUint(height, 10))
 	admissionPhase(r, a.N/3+6)
+	sizeGuardTie()
+	sizeFamily(r, thorough, eval)
 	completenessStream(r, thorough, eval)
 	recheck("after other transactions") // flush before the configuration changes
 	forkPhase(r, a.N/3+6, eval, recheck)
